@@ -30,6 +30,9 @@ Lemma tok_le_revoke t : tok_le t (revoke_t t).
 Proof. unfold tok_le, revoke_t; cbn; repeat split; auto; lia. Qed.
 Lemma tok_le_used t d : 0 <= d -> tok_le t (add_used d t).
 Proof. unfold tok_le, add_used; cbn; repeat split; auto; lia. Qed.
+(* leaving the grant's list (remove_inactive_token) changes nothing else *)
+Lemma tok_le_gone t : tok_le t (gone_t t).
+Proof. unfold tok_le, gone_t; cbn; repeat split; auto; lia. Qed.
 
 (* s' extends s: every token of s is still there, at the same position, only "later" *)
 Definition ext (s s' : st) : Prop :=
@@ -50,6 +53,54 @@ Proof.
   - rewrite nth_upd_same, H; cbn; eauto using tok_le_revoke.
   - rewrite nth_upd_other by auto. eauto using tok_le_refl.
 Qed.
+(* a pointwise change of the token list by steps that only move tokens forward *)
+Lemma ext_map_le (f : token -> token) s : (forall t, tok_le t (f t)) -> ext s (map_toks f s).
+Proof. intros Hf c t H. unfold tget, map_toks in *; cbn. rewrite nth_error_map, H; cbn. eauto. Qed.
+Lemma ext_sweep_p c p s : ext s (sweep_p c p s).
+Proof.
+  unfold sweep_p. destruct (c_remove_inactive c); [|apply ext_refl].
+  apply ext_map_le. intros t. destruct (p (t_grant t) && t_revoked t); auto using tok_le_refl, tok_le_gone.
+Qed.
+Lemma ext_sweep c gi s : ext s (sweep c gi s).
+Proof. apply ext_sweep_p. Qed.
+
+(* the token lists of the depth-first walk: same length, every position only moves forward *)
+Definition toks_le (a b : list token) : Prop :=
+  length a = length b /\ forall k t, nth_error a k = Some t -> exists t', nth_error b k = Some t' /\ tok_le t t'.
+Lemma toks_le_refl a : toks_le a a.
+Proof. split; auto. intros k t H. eauto using tok_le_refl. Qed.
+Lemma toks_le_trans a b c : toks_le a b -> toks_le b c -> toks_le a c.
+Proof.
+  intros (L1&H1) (L2&H2). split; [congruence|]. intros k t H. destruct (H1 _ _ H) as (t1&E1&Le1).
+  destruct (H2 _ _ E1) as (t2&E2&Le2). eauto using tok_le_trans.
+Qed.
+Lemma toks_le_map (f : token -> token) a : (forall t, tok_le t (f t)) -> toks_le a (List.map f a).
+Proof. intros Hf. split; [now rewrite map_length|]. intros k t H. rewrite nth_error_map, H; cbn. eauto. Qed.
+Lemma toks_le_upd_revoke id a : toks_le a (upd_nth id revoke_t a).
+Proof.
+  split; [now rewrite len_upd|]. intros k t H. destruct (Nat.eq_dec id k) as [->|N].
+  - rewrite nth_upd_same, H; cbn; eauto using tok_le_revoke.
+  - rewrite nth_upd_other by auto. eauto using tok_le_refl.
+Qed.
+Lemma toks_le_sweep gi a : toks_le a (sweep_toks gi a).
+Proof. apply toks_le_map. intros t. destruct (Nat.eqb (t_grant t) gi && t_revoked t); auto using tok_le_refl, tok_le_gone. Qed.
+Lemma toks_le_fold (f : list token -> nat -> list token) l :
+  (forall ts id, toks_le ts (f ts id)) -> forall ts, toks_le ts (fold_left f l ts).
+Proof.
+  intros Hf. induction l as [|x r IH]; intros ts; cbn [fold_left]; [apply toks_le_refl|].
+  eapply toks_le_trans; [apply Hf|apply IH].
+Qed.
+Lemma walk_le fuel : forall gi v ts, toks_le ts (walk fuel gi v ts).
+Proof.
+  induction fuel as [|f IH]; intros gi v ts; cbn [walk]; [apply toks_le_refl|].
+  eapply toks_le_trans; [|apply toks_le_sweep]. apply toks_le_fold. intros ts' id.
+  destruct (nth_error ts' id) as [t|]; [|apply toks_le_refl].
+  destruct (based_is t v); [|apply toks_le_refl].
+  eapply toks_le_trans; [apply toks_le_upd_revoke|apply IH].
+Qed.
+Lemma ext_walk_derived gi v s : ext s (walk_derived gi v s).
+Proof. intros k t H. unfold tget, walk_derived in *; cbn. now apply (walk_le (S (length (toks s))) gi v (toks s)). Qed.
+
 Lemma ext_same_toks s s' : toks s' = toks s -> ext s s'.
 Proof. intros E c t H. unfold tget in *. rewrite E. eauto using tok_le_refl. Qed.
 
@@ -184,7 +235,8 @@ Qed.
 Lemma find_in_tget gi id ts t : find_in gi id ts = Some t -> nth_error ts id = Some t /\ t_grant t = gi.
 Proof.
   unfold find_in. destruct (nth_error ts id) as [t0|]; [|discriminate].
-  destruct (Nat.eqb (t_grant t0) gi) eqn:E; [|discriminate]. intros H; inversion H; subst. apply Nat.eqb_eq in E. auto.
+  destruct (Nat.eqb (t_grant t0) gi) eqn:E; cbn [andb]; [|discriminate]. destruct (t_gone t0); cbn [negb]; [discriminate|].
+  intros H; inversion H; subst. apply Nat.eqb_eq in E. auto.
 Qed.
 
 (* a successful code exchange: what was true before, and what is true after *)
@@ -216,6 +268,8 @@ Qed.
 (* ------------------------------------------------------------------ every step only moves tokens "forward" *)
 Lemma ext_revoke_derived gi v s : ext s (revoke_derived gi v s).
 Proof. unfold revoke_derived. apply (ext_map_revoke (fun t => Nat.eqb (t_grant t) gi && derived_from (S (length (toks s))) (toks s) t v)). Qed.
+Lemma ext_cascade c gi v s : ext s (cascade c gi v s).
+Proof. unfold cascade. destruct (c_remove_inactive c); [apply ext_walk_derived|apply ext_revoke_derived]. Qed.
 
 Lemma mint_ext s gi cls based sc mx mints e s' id : mint s gi cls based sc mx mints e = Ok (s', id) -> ext s s'.
 Proof.
@@ -276,25 +330,31 @@ Proof.
   destruct o; cbn [step].
   - (* Authorize *) apply authorize_at_ext.
   - (* TokenParse *) unfold do_token_parse. repeat dm; cbn [fst]; try (now apply ext_same_toks).
-    eapply ext_trans; [apply ext_revoke_derived|]. now apply ext_same_toks.
+    eapply ext_trans; [apply ext_cascade|]. now apply ext_same_toks.
   - (* RefreshParse *) unfold do_refresh_parse. repeat dm; cbn [fst]; now apply ext_same_toks.
   - apply process_ext.
   - unfold do_userinfo. repeat dm; cbn [fst]; apply ext_refl.
   - unfold do_introspect. repeat dm; cbn [fst]; apply ext_refl.
   - unfold do_revoke_ep. repeat dm; cbn [fst]; try apply ext_refl; apply ext_upd_revoke.
-  - unfold do_api_revoke. repeat dm; cbn [fst]; try apply ext_refl.
-    + eapply ext_trans; [apply ext_upd_revoke|apply ext_revoke_derived].
-    + apply ext_upd_revoke.
+  - assert (Hold : forall id rec, ext s (fst (do_api_revoke s id rec))).
+    { intros id0 rec0. unfold do_api_revoke. repeat dm; cbn [fst]; try apply ext_refl.
+      + eapply ext_trans; [apply ext_upd_revoke|apply ext_revoke_derived].
+      + apply ext_upd_revoke. }
+    unfold do_api_revoke_c. repeat dm; cbn [fst]; try apply ext_refl; try apply Hold.
+    eapply ext_trans; [apply ext_upd_revoke|]. eapply ext_trans; [apply ext_walk_derived|apply ext_sweep].
   - (* RevokeGrant *) destruct (nth_error (grants s) gi) as [g|]; cbn [fst]; [|apply ext_refl].
     destruct (g_removed g); cbn [fst]; [apply ext_refl|]. unfold revoke_grant_at.
+    eapply ext_trans; [|apply ext_sweep].
     eapply ext_trans; [|apply (ext_map_revoke (fun t => Nat.eqb (t_grant t) gi))]. now apply ext_same_toks.
   - (* RevokeClient *) destruct (nth_error (grants s) gi) as [g|]; cbn [fst]; [|apply ext_refl].
-    destruct (existsb (live_branch g) (grants s)); cbn [fst]; [|apply ext_refl]. unfold revoke_branch.
+    destruct (existsb (live_branch g) (grants s)); cbn [fst]; [|apply ext_refl].
+    eapply ext_trans; [|apply ext_sweep_p]. unfold revoke_branch.
     intros k t H. unfold tget in *; cbn. rewrite nth_error_map, H; cbn.
     destruct (in_branch g s (t_grant t)); eauto using tok_le_refl, tok_le_revoke.
   - (* RemoveGrant *) destruct (nth_error (grants s) gi); cbn [fst]; [|apply ext_refl]. now apply ext_same_toks.
   - (* RevokeUser *) destruct (nth_error (grants s) gi) as [g|]; cbn [fst]; [|apply ext_refl].
-    destruct (existsb (live_user g) (grants s)); cbn [fst]; [|apply ext_refl]. unfold revoke_user.
+    destruct (existsb (live_user g) (grants s)); cbn [fst]; [|apply ext_refl].
+    eapply ext_trans; [|apply ext_sweep_p]. unfold revoke_user.
     intros k t H. unfold tget in *; cbn. rewrite nth_error_map, H; cbn.
     destruct (in_user g s (t_grant t)); eauto using tok_le_refl, tok_le_revoke.
   - now apply ext_same_toks.
@@ -339,6 +399,6 @@ Proof.
   intros H; inversion H; subst; clear H. unfold tget; cbn.
   exists (mkTok gi cls None 0 (match cls with Code => Some 1 | _ => mx end)
                 (match cls, mints with Code, None => Some [Access; Refresh; IdTok] | Refresh, None => Some [Access; Refresh] | _, m => m end)
-                false (if e =? 0 then 0 else now s + e) (g_scope g)), g.
+                false (if e =? 0 then 0 else now s + e) (g_scope g) false), g.
   rewrite nth_error_app2 by lia. rewrite Nat.sub_diag. cbn. repeat split; auto.
 Qed.
